@@ -30,6 +30,9 @@ func (e *Enc) callName(c *ssa.CallCommon) string {
 }
 
 func shortFuncName(f *ssa.Function) string {
+	if a, ok := funcAlias[f]; ok {
+		return a
+	}
 	if f.Pkg == nil {
 		// synthetic wrapper / instantiated generic
 		return f.Name()
@@ -403,8 +406,132 @@ func (e *Enc) argTerm(c *ssa.CallCommon, args []Term, i int) Term {
 	return args[i]
 }
 
+// isArbitrary: v may hold an arbitrary value produced by user code: the value returned by recover(), a parameter the
+// contract declares `arbitrary`, or something obtained from one by a type assertion or an interface conversion. Calling
+// a method of such a value (directly, or inside errors.Is/As/Unwrap) runs user code, which may panic; fmt and log/slog
+// recover from panics of the methods they call, so formatting it is safe.
+func (e *Enc) isArbitrary(v ssa.Value) bool {
+	return e.isArbitraryRec(v, map[ssa.Value]bool{})
+}
+
+func (e *Enc) isArbitraryRec(v ssa.Value, visiting map[ssa.Value]bool) bool {
+	if visiting[v] {
+		return false
+	}
+	visiting[v] = true
+	switch x := v.(type) {
+	case *ssa.Parameter:
+		if e.arbParams[x] {
+			return true
+		}
+		if e.fc != nil && x.Parent() == e.topFn {
+			for i, n := range e.fc.Arbitrary {
+				_ = i
+				if n == x.Name() {
+					return true
+				}
+			}
+			// a renamed parameter is known by its recorded name
+			for i, prm := range e.topFn.Params {
+				if prm == x {
+					e.prog.loadSignatures()
+					if rs, ok := e.prog.sigs[e.prog.funcKey(e.topFn)]; ok && i < len(rs.Params) {
+						for _, n := range e.fc.Arbitrary {
+							if n == rs.Params[i] {
+								return true
+							}
+						}
+					}
+				}
+			}
+		}
+		return false
+	case *ssa.Call:
+		if b, ok := x.Call.Value.(*ssa.Builtin); ok && b.Name() == "recover" {
+			return true
+		}
+		return false
+	case *ssa.TypeAssert:
+		return e.isArbitraryRec(x.X, visiting)
+	case *ssa.Extract:
+		if ta, ok := x.Tuple.(*ssa.TypeAssert); ok && x.Index == 0 {
+			return e.isArbitraryRec(ta.X, visiting)
+		}
+		return false
+	case *ssa.ChangeInterface:
+		return e.isArbitraryRec(x.X, visiting)
+	case *ssa.MakeInterface:
+		return e.isArbitraryRec(x.X, visiting)
+	case *ssa.Phi:
+		for _, ed := range x.Edges {
+			if e.isArbitraryRec(ed, visiting) {
+				return true
+			}
+		}
+		return false
+	}
+	return false
+}
+
+// mayPanicHere adds an exceptional edge at the current point: the step may panic with an unknown non-nil value.
+func (e *Enc) mayPanicHere(reason string) {
+	exc := e.fresh("exc", SBool)
+	pv := e.fresh("panicval", SIface)
+	g := And(e.curGuard, exc)
+	e.sc.Assert(Implies(g, Not(Eq(App(SInt, "ityp", pv), IntLit(0)))))
+	post := e.cur
+	e.cur = e.copyState(post)
+	e.raise(g, pv)
+	e.cur = e.copyState(post)
+	e.pushExtra(Not(exc))
+	e.abstracted["may panic: "+reason] = true
+}
+
 func (e *Enc) doCallInner(ci ssa.CallInstruction, c *ssa.CallCommon, args []Term) ([]Term, error) {
 	sig := c.Signature()
+	if c.IsInvoke() && e.isArbitrary(c.Value) {
+		e.mayPanicHere("method " + c.Method.Name() + " of an arbitrary user value (a recovered panic value) is user code")
+	}
+	if fn := c.StaticCallee(); fn != nil && !c.IsInvoke() {
+		anyArb := false
+		for _, a := range c.Args {
+			anyArb = anyArb || e.isArbitrary(a)
+		}
+		if anyArb {
+			switch shortFuncName(fn) {
+			case "errors.Is", "errors.As", "errors.Unwrap":
+				e.mayPanicHere(shortFuncName(fn) + " calls the Is/As/Unwrap methods of an arbitrary user value")
+			}
+			if fc := e.contractOf(fn); fc != nil {
+				for i, a := range c.Args {
+					if !e.isArbitrary(a) || i >= len(fn.Params) {
+						continue
+					}
+					declared := false
+					for _, n := range fc.Arbitrary {
+						declared = declared || n == fn.Params[i].Name()
+					}
+					if !declared {
+						pos := token.NoPos
+						if ci != nil {
+							pos = ci.Pos()
+						}
+						e.oblige("PROTO", "arbitrary-arg", nil, Not(e.curGuard), "an arbitrary user value (a recovered panic value) is passed to "+shortFuncName(fn)+" as "+fn.Params[i].Name()+", which its contract does not declare `arbitrary`: the callee may call its methods, which are user code", pos)
+					}
+				}
+			} else if fn.Pkg != nil && strings.HasPrefix(fn.Pkg.Pkg.Path(), e.prog.modPath) {
+				// contract-less module helper (inlined below): its parameters inherit the property
+				for i, a := range c.Args {
+					if e.isArbitrary(a) && i < len(fn.Params) {
+						if e.arbParams == nil {
+							e.arbParams = map[*ssa.Parameter]bool{}
+						}
+						e.arbParams[fn.Params[i]] = true
+					}
+				}
+			}
+		}
+	}
 	if c.IsInvoke() {
 		return e.callExternal(ci, c, "invoke:"+types.TypeString(c.Value.Type(), nil)+"."+c.Method.Name(), args)
 	}
@@ -683,7 +810,22 @@ func (e *Enc) applyContract(ci ssa.CallInstruction, fc *FuncContract, fn *ssa.Fu
 	}
 	post := e.cur
 	// 4. exceptional exit
-	if fc.MayPanic {
+	mayPanic := fc.MayPanic
+	if fc.MayPanicArb && ci != nil && fn != nil {
+		// the callee panics only through methods of its arbitrary parameters: none is passed an arbitrary value here
+		mayPanic = false
+		cc := ci.Common()
+		for i, a := range cc.Args {
+			if i < len(fn.Params) && e.isArbitrary(a) {
+				for _, n := range fc.Arbitrary {
+					if n == fn.Params[i].Name() {
+						mayPanic = true
+					}
+				}
+			}
+		}
+	}
+	if mayPanic {
 		exc := TTrue
 		if !fc.PanicsAlways {
 			exc = e.fresh("exc", SBool)
@@ -720,6 +862,12 @@ func (e *Enc) applyContract(ci ssa.CallInstruction, fc *FuncContract, fn *ssa.Fu
 	for _, cl := range fc.Ensures {
 		t, err := qe.evalBool(cl.Expr)
 		if err != nil {
+			if strings.Contains(err.Error(), "unknown identifier") {
+				// the clause speaks about a local variable of the callee (meaningful only inside its body): the caller
+				// learns nothing from it (fewer assumptions: sound)
+				e.abstracted[fmt.Sprintf("postcondition of %s not used at the call (it names a local of the callee): %s", name, cl.Text)] = true
+				continue
+			}
 			return nil, fmt.Errorf("%s:%d: ensures of %s at call in %s: %v", cl.File, cl.Line, name, e.key, err)
 		}
 		e.sc.AssertNamed(Implies(e.curGuard, t), "ensures of "+name+": "+cl.Text)
@@ -735,6 +883,16 @@ func (e *Enc) applyContract(ci ssa.CallInstruction, fc *FuncContract, fn *ssa.Fu
 		e.sc.AssertNamed(Implies(e.curGuard, t), "closure invariant of "+name+" after call")
 	}
 	e.usedContracts[name] = true
+	if fc.Target != "" {
+		k := fc.PkgPath + "." + fc.Target
+		if fc.Variant != "" {
+			k += "@" + fc.Variant
+		}
+		if e.usedKeys == nil {
+			e.usedKeys = map[string]bool{}
+		}
+		e.usedKeys[k] = true
+	}
 	if fc.Trusted {
 		e.assumed["trusted contract of "+name+" (body not verified)"] = true
 	}
@@ -851,6 +1009,14 @@ func (e *Enc) runDefers(panicking bool) error {
 			}
 			if recovers && panicking {
 				e.recoveredBy = append(e.recoveredBy, flag)
+			} else if panicking && !recovers {
+				// a deferred function without a `recovers` contract whose body (or a function literal inside it) calls
+				// recover() may or may not stop the panic: both continuations are possible
+				if fn := c.StaticCallee(); fn != nil && e.contractOf(fn) == nil && callsRecover(fn, 0) {
+					maybe := e.fresh("mayrecover", SBool)
+					e.recoveredBy = append(e.recoveredBy, And(flag, maybe))
+					e.abstracted["deferred "+shortFuncName(fn)+" calls recover() and has no contract: it may or may not stop a panic"] = true
+				}
 			}
 			return nil
 		})
@@ -866,6 +1032,28 @@ func (e *Enc) runDefers(panicking bool) error {
 		}
 	}
 	return nil
+}
+
+// callsRecover: fn's body, or a function literal nested in it, contains a call of the builtin recover.
+func callsRecover(fn *ssa.Function, depth int) bool {
+	if depth > 3 {
+		return false
+	}
+	for _, b := range fn.Blocks {
+		for _, ins := range b.Instrs {
+			if ci, ok := ins.(ssa.CallInstruction); ok {
+				if bi, ok := ci.Common().Value.(*ssa.Builtin); ok && bi.Name() == "recover" {
+					return true
+				}
+			}
+		}
+	}
+	for _, af := range fn.AnonFuncs {
+		if callsRecover(af, depth+1) {
+			return true
+		}
+	}
+	return false
 }
 
 // handleExceptional merges all exceptional edges, runs the defers and continues in the recover block.
@@ -1273,6 +1461,25 @@ func (e *Enc) execGo(x *ssa.Go) error {
 				}
 				e.oblige("requires@go:"+shortFuncName(fn), fmt.Sprintf("%d.site%d", k, e.siteNo("go"+shortFuncName(fn))), nil, t, "precondition of spawned "+shortFuncName(fn)+": "+cl.Text, x.Pos())
 			}
+		}
+	}
+	// spawn discipline: a goroutine may only be started on a function that is itself under contract (it is then verified
+	// as a thread of its own) or that the contract declares with `spawns <name>`; anything else runs concurrently with
+	// the rest of the run and is verified nowhere
+	underContract := false
+	if fn := c.StaticCallee(); fn != nil && e.prog.contractOf(fn) != nil {
+		underContract = true
+	}
+	if !underContract && e.fc != nil {
+		name := e.callName(c)
+		declared := false
+		for _, sp := range e.fc.Spawns {
+			declared = declared || matchCallee(name, sp)
+		}
+		if !declared {
+			e.oblige("PROTO", "spawn", nil, Not(e.curGuard), "a goroutine is started on "+name+", which is neither under contract nor declared by a `spawns` clause: it would run concurrently with the rest of the run, verified nowhere and joined by nobody", x.Pos())
+		} else {
+			e.assumed["goroutines declared by `spawns` clauses ("+name+") are not verified as threads of their own"] = true
 		}
 	}
 	e.abstracted["go statement: the spawned thread is verified separately (if under contract); no effect on this thread's state"] = true
